@@ -622,6 +622,11 @@ def control_count_class(e, ids, sentinel_names=("CONTROL_SENTINEL_VALUE", "-1"))
 def r7(ctx, rule="R7", sites=ROW_CLASS_SITES):
     for q, var, role, ids in sites:
         f = ctx.fn(q)
+        if "." not in ids and ids not in f.params:
+            # the id matrix is a local copy of <screen>.treatment_ids, whatever the local is called
+            al = [k for k, v in single_defs(f.node).items() if isinstance(v, ast.Attribute) and v.attr == "treatment_ids" and isinstance(v.value, ast.Name) and v.value.id in f.params]
+            if len(al) == 1:
+                ids = al[0]
         if var == "<ingested rows>":
             # the row selection under which the sampler is fed (whatever it is called)
             feed, pos, filters, loop, call = ingestion_feed(ctx, f)
